@@ -71,7 +71,7 @@ fn ref_decrypt(k: &CK, buf: &[u8], has_pub: bool) -> Result<Vec<u8>, ()> {
 // ---------------------------------------------------------------- key alphabet
 
 const N_HEX: &str = "fffffffffffffffffffffffffffffffebaaedce6af48a03bbfd25e8cd0364141";
-const KEY_NAMES: [&str; 8] = ["1", "2", "n-1", "01 02 .. 20", "n-2", "2^255", "3", "2^255-1"];
+const KEY_NAMES: [&str; 8] = ["1", "2", "n-1", "01 02 .. 20", "smallest k >= 4 with mixed end-byte parities in x and y", "2^255", "3", "2^255-1"];
 
 fn secret(i: usize) -> [u8; 32] {
     let n = secp::from_be(&hex::decode(N_HEX).unwrap());
@@ -90,7 +90,22 @@ fn secret(i: usize) -> [u8; 32] {
             b.copy_from_slice(&pattern(2, 32));
             b
         }
-        4 => secp::be32(&(n - 2u32)),
+        4 => {
+            // the smallest scalar >= 4 whose public point has different parities in the FIRST and LAST byte of y and of x:
+            // a conversion that reads the sign (or anything else) from the wrong end of a coordinate is invisible on keys
+            // where both ends agree - which, by accident, was the case for the four keys of the quick alphabet
+            let mut k = 4u32;
+            loop {
+                if let Point::Affine { x, y } = secp::mul_g(&num_bigint::BigUint::from(k)) {
+                    let (xb, yb) = (secp::be32(&x), secp::be32(&y));
+                    if (yb[0] ^ yb[31]) & 1 == 1 && (xb[0] ^ xb[31]) & 1 == 1 {
+                        break;
+                    }
+                }
+                k += 1;
+            }
+            secp::be32(&num_bigint::BigUint::from(k))
+        }
         5 => {
             let mut b = [0u8; 32];
             b[0] = 0x80;
@@ -869,7 +884,7 @@ fn dims(tier: Tier) -> (u64, u64) {
     if tier.is_thorough() {
         (8, 3)
     } else {
-        (4, 3)
+        (5, 3)
     }
 }
 
